@@ -131,6 +131,9 @@ def index_for(shape, n):
         return [2000.0 - 0.1524 * i for i in range(n)]
     if shape == "single":
         return [1670.0]
+    if shape == "irregular_closed":
+        # an irregular index whose last sample equals its first one (a log run down and up again)
+        return ([10.0, 10.7, 12.0, 12.125, 11.0, 10.0] if n >= 6 else [10.0, 10.7, 12.0, 10.0][:max(3, n)][:-1] + [10.0])
     return [10.0, 10.7, 12.0, 12.125, 20.0, 21.5][:max(2, n)]
 
 
@@ -194,7 +197,7 @@ def grid(tier):
     i = 0
     for constr in CONSTR:
         for edit in EDITS:
-            for shape in ("increasing", "decreasing", "single", "irregular"):
+            for shape in ("increasing", "decreasing", "single", "irregular", "irregular_closed"):
                 for opts in ({}, {"version": 1.2}, {"version": 2, "wrap": True}, {"wrap": False, "fmt": "%.2f"}) + (({"mnemonics_header": True},) if edit in ("stale_duplicates", "other_curve") else ()):
                     rng = random.Random("C16grid:%d" % i)
                     i += 1
@@ -212,7 +215,7 @@ def n_random(tier):
 
 
 def random_case(rng, tier):
-    shape = rng.choice(["increasing", "decreasing", "single", "irregular"])
+    shape = rng.choice(["increasing", "decreasing", "single", "irregular", "irregular_closed"])
     return {"kind": "gen", "spec": base_spec(rng, shape), "constr": rng.choice(CONSTR), "edit": rng.choice(EDITS),
             "shape": shape, "opts": rand_opts(rng), "writes": rng.randint(2, 4), "inplace_pos": rng.choice([0, -1]),
             "read_case": rng.choice(["preserve", "upper", "lower"]), "digitnames": rng.random() < 0.2}
@@ -433,7 +436,7 @@ def truthful(ctx, text, las, case):
     u = _unit_of_last_digit
     close(well["STRT"][1], vals[0], 0.5 * u(idx[0]), "STRT")
     close(well["STOP"][1], vals[-1], 0.5 * u(idx[-1]), "STOP")
-    if len(vals) > 1 and vals[0] != vals[-1]:
+    if len(vals) > 1:            # every index of two or more samples has a first increment (also one that ends where it starts)
         close(well["STEP"][1], vals[1] - vals[0], 0.5 * u(idx[0]) + 0.5 * u(idx[1]), "STEP")
     units = {well["STRT"][0], well["STOP"][0], well["STEP"][0], first_curve_unit}
     if len(units) != 1:
